@@ -27,6 +27,7 @@ struct Expect {
     bool must_throw;        // ... and required (no legal way to defer)
 };
 
+static bool g_sizes_per_char = false;
 static std::string check_from(const RefParse& rp, const FromRes& r, size_t maxChars, bool sizes_exact, std::string* outcome) {
     size_t k = rp.items.size();
     size_t units = 0, j_fit = 0;
@@ -46,7 +47,20 @@ static std::string check_from(const RefParse& rp, const FromRes& r, size_t maxCh
     if (sizes_exact) {
         std::vector<uint8_t> ws;
         for (size_t i = 0; i < j; i++) { ws.push_back(rp.items[i].nbytes); if (rp.items[i].nunits == 2) ws.push_back(0); }
-        if (ws != r.sizes) return "charSizes differ: expected " + hexv(ws) + " observed " + hexv(r.sizes);
+        if (ws != r.sizes) {
+            // the documentation of charSizes does not say which unit of a surrogate pair carries the byte count; the intrinsic transcoders
+            // use (n,0), the ICU wrapper yields (0,n): for wrappers only the per-character sum is compared (g_sizes_per_char)
+            bool ok = false;
+            if (g_sizes_per_char && ws.size() == r.sizes.size()) {
+                ok = true;
+                for (size_t i = 0, q = 0; i < j && ok; i++) {
+                    unsigned sum = r.sizes[q]; if (rp.items[i].nunits == 2) sum += r.sizes[q + 1];
+                    if (sum != rp.items[i].nbytes) ok = false;
+                    q += rp.items[i].nunits;
+                }
+            }
+            if (!ok) return "charSizes differ: expected " + hexv(ws) + " observed " + hexv(r.sizes);
+        }
     }
     if (j > j_fit) return "more characters than maxChars allows";
     if (j == j_fit) {
@@ -248,6 +262,7 @@ static const Enc ENCS[] = {
 };
 static const int NENC = sizeof(ENCS) / sizeof(ENCS[0]);
 static IcuRef* g_icu[NENC];   // opened before fork, one per encoding (R_ICU only)
+static IcuRef* g_icusub[NENC];  // same converter with ICU's default (substituting) callbacks, for the known-defect predicate only
 static int enc_index(const std::string& n) { for (int i = 0; i < NENC; i++) if (n == ENCS[i].xname) return i; return -1; }
 static std::vector<int> g_encsel;
 static void select_encs(const Args& a) {
@@ -257,6 +272,7 @@ static void select_encs(const Args& a) {
         if (!take) continue;
         if (ENCS[i].kind == R_ICU) {
             g_icu[i] = new IcuRef();
+            g_icusub[i] = new IcuRef(); g_icusub[i]->open(ENCS[i].icuname, true);
             if (!g_icu[i]->open(ENCS[i].icuname)) { fprintf(stderr, "reference converter %s unavailable\n", ENCS[i].icuname); exit(2); }
         }
         XMLTranscoder* t = make_tc(ENCS[i].xname);
@@ -376,6 +392,7 @@ static void run_enc(uint64_t idx, Ctx& c) {
     const Enc& E = ENCS[ei];
     std::map<std::string, uint64_t> cnt;
     XMLTranscoder* t = make_tc(E.xname);
+    g_src_pad_units = (E.intrinsic || g_strict) ? 0 : 1;
     bool full_variants = (E.kind == R_UTF8 || E.kind == R_UCS4LE || E.kind == R_UCS4BE);
     auto fresh = [&]() { if (!E.intrinsic) { delete t; t = make_tc(E.xname); } };
     auto viol = [&](const char* kind, uint32_t cp, const std::string& what) {
@@ -398,11 +415,22 @@ static void run_enc(uint64_t idx, Ctx& c) {
             else if (table && can && !repr && cp >= 0x10000) {
                 if (t->canTranscodeTo(cp & 0xFFFF)) known_or_violation(c, "table-cantranscodeto-truncates", "\"encoding\":" + jstr(E.xname) + ",\"cp\":" + std::to_string(cp));
                 else viol("cantranscodeto", cp, "canTranscodeTo=true but the reference has no mapping");
+            } else if (!E.intrinsic && cp >= 0x10000) {
+                // the wrapper forms the pair as (cp>>10)+0xD800, (cp&0x3FF)+0xDC00 without subtracting 0x10000; tolerated as the known
+                // defect only when the answer is exactly what an independent converter says about THAT unit pair
+                uint16_t pr[2] = {(uint16_t)((cp >> 10) + 0xD800), (uint16_t)((cp & 0x3FF) + 0xDC00)};
+                Bytes tmp; bool predicted = g_icu[ei]->encode(pr, 2, tmp);
+                if (predicted == can) known_or_violation(c, "icu-cantranscodeto-supplementary", "\"encoding\":" + jstr(E.xname) + ",\"cp\":" + std::to_string(cp));
+                else viol("cantranscodeto", cp, std::string("canTranscodeTo=") + (can ? "true" : "false") + " reference representable=" + (repr ? "true" : "false"));
             } else if (!E.intrinsic && can && !repr) {
                 // ICU skips unmappable default-ignorable code points: tolerated as the known defect only when exactly that happens
                 ToRes r = x_to(t, u.data(), u.size(), 16);
                 if (!r.threw && r.out.empty() && r.eaten == u.size()) { known_or_violation(c, "icu-default-ignorable-dropped", "\"encoding\":" + jstr(E.xname) + ",\"cp\":" + std::to_string(cp)); continue; }
                 if (r.threw) fresh();
+                // narrowing: private-use code points have no defined legal byte sequence; ICU always applies its vendor one-way mapping for them
+                bool pua = (cp >= 0xE000 && cp <= 0xF8FF) || cp >= 0xF0000;
+                Bytes raw; U16 back;
+                if (pua && !r.threw && g_icu[ei]->encode(u.data(), u.size(), raw) && raw == r.out && r.eaten == u.size()) { cnt["pua_vendor_oneway_mapping_accepted"]++; continue; }
                 viol("cantranscodeto", cp, "canTranscodeTo=true but the reference has no round-trip mapping");
             } else if (table && can && !repr) {
                 // best-fit ("fallback") mapping: only tolerated as the known defect when it is exactly a one-way mapping, i.e. the byte
@@ -411,8 +439,6 @@ static void run_enc(uint64_t idx, Ctx& c) {
                 U16 back; bool ok = !r.threw && r.out.size() == 1 && g_icu[ei]->decode((const uint8_t*)r.out.data(), 1, back) && back != u;
                 if (ok) { known_or_violation(c, "table-fallback-mapping", "\"encoding\":" + jstr(E.xname) + ",\"cp\":" + std::to_string(cp)); continue; }
                 viol("cantranscodeto", cp, "canTranscodeTo=true but the reference has no mapping");
-            } else if (!E.intrinsic && cp >= 0x10000) {
-                known_or_violation(c, "icu-cantranscodeto-supplementary", "\"encoding\":" + jstr(E.xname) + ",\"cp\":" + std::to_string(cp));
             } else viol("cantranscodeto", cp, std::string("canTranscodeTo=") + (can ? "true" : "false") + " but reference representable=" + (repr ? "true" : "false"));
             if (table && cp == 0) continue;
         }
@@ -430,14 +456,16 @@ static void run_enc(uint64_t idx, Ctx& c) {
                 else if (r.eaten != u.size() || r.out != want) viol("encode", cp, "expected " + hexs(want) + " eaten=" + std::to_string(u.size()) + " observed " + hexs(r.out) + " eaten=" + std::to_string(r.eaten));
                 else cnt["encoded_ok"]++;
             } else {
-                if (!r.threw) viol("encode", cp, "unrepresentable character encoded as " + hexs(r.out) + " instead of being reported");
+                if (!r.threw && !E.intrinsic && r.out.empty() && r.eaten == u.size()) { known_or_violation(c, "icu-default-ignorable-dropped", "\"encoding\":" + jstr(E.xname) + ",\"cp\":" + std::to_string(cp)); continue; }
+                else if (!r.threw) viol("encode", cp, "unrepresentable character encoded as " + hexs(r.out) + " instead of being reported");
                 else { cnt["unrepresentable_reported:" + r.exc]++; fresh(); }
             }
         }
         // 3. replacement mode never throws and eats the character
         if (!repr) {
             ToRes r = x_to(t, u.data(), u.size(), 16, XMLTranscoder::UnRep_RepChar);
-            if (r.threw) { viol("encode-repchar", cp, "UnRep_RepChar threw " + r.exc); fresh(); }
+            if (!r.threw && !E.intrinsic && r.out.empty() && r.eaten == u.size()) known_or_violation(c, "icu-default-ignorable-dropped", "\"encoding\":" + jstr(E.xname) + ",\"cp\":" + std::to_string(cp));
+            else if (r.threw) { viol("encode-repchar", cp, "UnRep_RepChar threw " + r.exc); fresh(); }
             else if (r.eaten != u.size() || r.out.empty()) viol("encode-repchar", cp, "UnRep_RepChar: eaten=" + std::to_string(r.eaten) + " bytes=" + hexs(r.out));
             else cnt["replaced"]++;
             continue;
@@ -446,7 +474,8 @@ static void run_enc(uint64_t idx, Ctx& c) {
         {
             FromRes d = x_from(t, (const uint8_t*)want.data(), want.size(), 4);
             if (d.threw || d.out != u || d.eaten != want.size()) {
-                bool kd = false;
+                bool kd = !strcmp(E.xname, "IBM1047") && cp == 0x85 && !d.threw && d.out == U16(1, 0x000A) && d.eaten == 1;
+                if (kd) known_or_violation(c, "ibm1047-nl-decodes-to-lf", "\"cp\":133");
                 if (d.threw) fresh();
                 if (!kd) viol("roundtrip", cp, "decode(" + hexs(want) + ") gave [" + hex16(d.out) + "] eaten=" + std::to_string(d.eaten) + (d.threw ? " exc=" + d.exc : ""));
             } else cnt["roundtrip_ok"]++;
@@ -473,7 +502,7 @@ static void run_enc(uint64_t idx, Ctx& c) {
             std::string e = stream_encode(t, w, 64, mb, got, threw, cnt);
             if (threw || !e.empty() || got != wb) {
                 if (E.kind == R_UCS4BE && cp >= 0x10000 && !threw && e.empty() && got.size() == wb.size()) { known_or_violation(c, "ucs4-swapped-supplementary-not-swapped", "\"cp\":" + std::to_string(cp)); break; }
-                if (!E.intrinsic && !threw && e.empty() && got.size() < wb.size() && wb.compare(0, got.size(), got) == 0) { known_or_violation(c, "icu-encode-overflow-lost", "\"encoding\":" + jstr(E.xname) + ",\"cp\":" + std::to_string(cp) + ",\"maxBytes\":" + std::to_string(mb)); fresh(); continue; }
+                if (!E.intrinsic && mb < (size_t)E.maxlen && (threw || (e.empty() && got.size() < wb.size() && wb.compare(0, got.size(), got) == 0))) { known_or_violation(c, "icu-encode-overflow-lost", "\"encoding\":" + jstr(E.xname) + ",\"cp\":" + std::to_string(cp) + ",\"maxBytes\":" + std::to_string(mb)); fresh(); continue; }
                 viol("encode-outblock", cp, "output block " + std::to_string(mb) + ": " + (threw ? "exception" : e.empty() ? "expected " + hexs(wb) + " observed " + hexs(got) : e));
                 fresh();
             } else cnt["outblock_variants_ok"]++;
@@ -492,6 +521,449 @@ static void setup_enc(const Args& a, Runner& R) {
 }
 
 // =================================================================================================
+// space utf16: every unit, every unit PAIR (case = first unit, the 65536 second units laid out consecutively), odd byte counts,
+// small output blocks.  The transcoder level is a pure unit copy (+ byte swap); surrogate pairing is the scanner's job (c05_docs).
+// =================================================================================================
+static XMLTranscoder* g_u16[2];  // LE, BE
+static std::vector<uint32_t> g_u16first;
+static void run_utf16(uint64_t idx, Ctx& c) {
+    int be = (int)(idx & 1);
+    uint32_t u1 = g_u16first[idx >> 1];
+    XMLTranscoder* t = g_u16[be];
+    const size_t NP = 65536;
+    static std::vector<uint8_t> bytes(NP * 4);
+    static std::vector<uint16_t> units(NP * 2);
+    for (size_t u2 = 0; u2 < NP; u2++) {
+        units[2 * u2] = (uint16_t)u1; units[2 * u2 + 1] = (uint16_t)u2;
+        uint16_t w[2] = {(uint16_t)u1, (uint16_t)u2};
+        for (int k = 0; k < 2; k++) {
+            bytes[4 * u2 + 2 * k + (be ? 0 : 1)] = (uint8_t)(w[k] >> 8);
+            bytes[4 * u2 + 2 * k + (be ? 1 : 0)] = (uint8_t)(w[k] & 0xFF);
+        }
+    }
+    // decode all pairs in one call, then in blocks of odd maxChars
+    for (size_t mc : {NP * 2, (size_t)4093}) {
+        size_t pos = 0; U16 got; std::vector<uint8_t> sz;
+        while (pos < bytes.size()) {
+            FromRes r = x_from(t, bytes.data() + pos, bytes.size() - pos, mc);
+            if (r.threw || r.eaten == 0 || r.eaten != r.out.size() * 2) { c.violation("utf16-decode", "\"u1\":" + std::to_string(u1) + ",\"be\":" + std::to_string(be) + ",\"problem\":" + jstr(r.threw ? "exception " + r.exc : "eaten/chars inconsistent")); return; }
+            got += r.out; sz.insert(sz.end(), r.sizes.begin(), r.sizes.end()); pos += r.eaten;
+        }
+        bool ok = got.size() == units.size() && memcmp(got.data(), units.data(), units.size() * 2) == 0;
+        for (size_t i = 0; ok && i < sz.size(); i++) if (sz[i] != 2) ok = false;
+        if (!ok) {
+            size_t d = 0; while (d < got.size() && d < units.size() && got[d] == units[d]) d++;
+            c.violation("utf16-decode", "\"u1\":" + std::to_string(u1) + ",\"be\":" + std::to_string(be) + ",\"first_diff_unit\":" + std::to_string(d) + ",\"problem\":\"unit copy differs or charSizes != 2\"");
+            return;
+        }
+        c.count("utf16_pairs_decoded", NP);
+    }
+    // encode all pairs
+    {
+        size_t pos = 0; Bytes got;
+        while (pos < units.size()) {
+            ToRes r = x_to(t, units.data() + pos, units.size() - pos, 8191);  // odd block: only whole units may be written
+            if (r.threw || r.eaten == 0 || r.out.size() != r.eaten * 2) { c.violation("utf16-encode", "\"u1\":" + std::to_string(u1) + ",\"be\":" + std::to_string(be) + ",\"problem\":\"exception or eaten/bytes inconsistent\""); return; }
+            got += r.out; pos += r.eaten;
+        }
+        if (got.size() != bytes.size() || memcmp(got.data(), bytes.data(), bytes.size()) != 0) { c.violation("utf16-encode", "\"u1\":" + std::to_string(u1) + ",\"be\":" + std::to_string(be) + ",\"problem\":\"bytes differ\""); return; }
+        c.count("utf16_pairs_encoded", NP);
+    }
+    // byte counts 0..5 of the first pairs, maxChars 1..3: an odd trailing byte is never consumed
+    for (size_t u2 : {(size_t)0, (size_t)0xD800, (size_t)0xDC00, (size_t)0xFFFF}) {
+        for (size_t n = 0; n <= 5; n++) for (size_t mc = 1; mc <= 3; mc++) {
+            uint8_t b6[8]; memcpy(b6, &bytes[4 * u2], 4); b6[4] = 0x41; b6[5] = 0x42;
+            RefParse rp = ref_parse(be ? 2 : 1, b6, n);
+            FromRes r = x_from(t, b6, n, mc);
+            std::string outcome, e = check_from(rp, r, mc, true, &outcome);
+            if (!e.empty()) c.violation("utf16-decode-split", "\"u1\":" + std::to_string(u1) + ",\"u2\":" + std::to_string(u2) + ",\"be\":" + std::to_string(be) + ",\"bytes\":" + std::to_string(n) + ",\"maxChars\":" + std::to_string(mc) + ",\"problem\":" + jstr(e));
+            else c.count("utf16_split:" + outcome);
+        }
+        for (size_t mb = 1; mb <= 8; mb++) {
+            ToRes r = x_to(t, &units[2 * u2], 2, mb);
+            size_t wantu = std::min<size_t>(2, mb / 2);
+            if (r.threw || r.eaten != wantu || r.out != Bytes((const char*)&bytes[4 * u2], wantu * 2))
+                c.violation("utf16-encode-block", "\"u1\":" + std::to_string(u1) + ",\"u2\":" + std::to_string(u2) + ",\"be\":" + std::to_string(be) + ",\"maxBytes\":" + std::to_string(mb));
+            else c.count("utf16_outblocks_ok");
+        }
+    }
+    if (!g_u16[be]->canTranscodeTo(u1) || !g_u16[be]->canTranscodeTo(0x10000 + u1 * 16)) c.violation("utf16-cantranscodeto", "\"u1\":" + std::to_string(u1));
+    if (idx % 9973 == 0) c.sample("{\"first_unit\":" + std::to_string(u1) + ",\"be\":" + std::to_string(be) + "}");
+}
+static void setup_utf16(const Args& a, Runner& R) {
+    g_u16[0] = make_tc("UTF-16LE"); g_u16[1] = make_tc("UTF-16BE");
+    if (enc_index("UTF-16LE") != 1 || enc_index("UTF-16BE") != 2) { fprintf(stderr, "ENCS order\n"); exit(2); }
+    if (a.str("mode", "quick") == "quick") {
+        // first units: every class edge of UTF-16 (+-1) and every byte-swap-sensitive pattern; second unit: ALL 65536 values
+        for (uint32_t u : {0x0000u, 0x0001u, 0x0041u, 0x007Fu, 0x0080u, 0x00FFu, 0x0100u, 0x07FFu, 0x0800u, 0x3C00u, 0x003Cu, 0xD7FFu, 0xD800u, 0xD801u, 0xDBFEu, 0xDBFFu,
+                           0xDC00u, 0xDC01u, 0xDFFEu, 0xDFFFu, 0xE000u, 0xFEFFu, 0xFFFEu, 0xFFFDu, 0xFFFFu, 0x00D8u, 0x00DCu, 0xFF00u, 0x1234u, 0x3412u, 0x8000u, 0x7FFFu})
+            g_u16first.push_back(u);
+    } else for (uint32_t u = 0; u < 65536; u++) g_u16first.push_back(u);
+    R.total = g_u16first.size() * 2;
+    R.fn = run_utf16;
+    R.describe = [](uint64_t i) { return "{\"first_unit\":" + std::to_string(g_u16first[i >> 1]) + ",\"be\":" + std::to_string(i & 1) + "}"; };
+    R.extra_json = "\"bounds\":" + jstr(std::to_string(g_u16first.size()) + " first units x all 65536 second units x {LE,BE}");
+}
+
+// =================================================================================================
+// space ucs4: one transcodeFrom call per 32-bit value
+// =================================================================================================
+static XMLTranscoder* g_u4[2];
+static std::vector<uint32_t> g_u4extra;   // byte-class product values
+static uint64_t g_u4dense = 0;            // all values below this bound
+static const uint32_t U4_CHUNK = 4096;
+static void ucs4_value(Ctx& c, uint32_t v, int be, std::map<std::string, uint64_t>& cnt) {
+    Bytes b = ref_utf32_encode(v, be != 0);
+    FromRes r = x_from(g_u4[be], (const uint8_t*)b.data(), 4, 2);
+    char hv[16]; snprintf(hv, sizeof hv, "%08X", v);
+    std::string where = std::string("\"value\":") + jstr(hv) + ",\"encoding\":" + jstr(be ? "UCS-4BE" : "UCS-4LE") + ",\"bytes\":" + jstr(hexs(b));
+    if (is_scalar(v)) {
+        U16 want; append_scalar(want, v);
+        std::vector<uint8_t> ws = {4}; if (want.size() == 2) ws.push_back(0);
+        if (r.threw || r.out != want || r.eaten != 4 || r.sizes != ws) c.violation("ucs4-decode", where + ",\"expected\":" + jstr(hex16(want)) + ",\"observed\":" + jstr(r.threw ? r.exc : hex16(r.out)));
+        else cnt[want.size() == 2 ? "ucs4_decoded_supplementary" : "ucs4_decoded_bmp"]++;
+        // with room for one unit only, a supplementary value must be left alone
+        if (want.size() == 2) {
+            FromRes r1 = x_from(g_u4[be], (const uint8_t*)b.data(), 4, 1);
+            if (r1.threw || !r1.out.empty() || r1.eaten != 0) c.violation("ucs4-decode", where + ",\"problem\":\"maxChars=1: expected nothing consumed\"");
+            else cnt["ucs4_pair_deferred_maxchars1"]++;
+        }
+        return;
+    }
+    if (r.threw) { cnt["ucs4_rejected:" + r.exc]++; return; }
+    if (is_surrogate(v)) {
+        if (r.out.size() == 1 && r.out[0] == v && r.eaten == 4) { known_or_violation(c, "ucs4-surrogate-decoded", where + ",\"observed\":" + jstr(hex16(r.out))); return; }
+    } else {
+        // exactly the known wrong arithmetic: lead = 0xD7C0 + (v >> 10), trail = 0xDC00 + (v & 0x3FF), both truncated to 16 bits
+        U16 bogus; bogus.push_back((uint16_t)(0xD7C0 + (v >> 10))); bogus.push_back((uint16_t)(0xDC00 + (v & 0x3FF)));
+        if (r.out == bogus && r.eaten == 4) {
+            bool looks_valid = bogus[0] >= 0xD800 && bogus[0] <= 0xDBFF;
+            if (looks_valid) cnt["ucs4_out_of_range_decoded_as_valid_pair"]++;
+            known_or_violation(c, "ucs4-out-of-range-decoded", where + ",\"observed\":" + jstr(hex16(r.out)));
+            return;
+        }
+    }
+    c.violation("ucs4-illegal-not-rejected", where + ",\"observed\":" + jstr(hex16(r.out)) + ",\"eaten\":" + std::to_string(r.eaten));
+}
+static void run_ucs4(uint64_t idx, Ctx& c) {
+    std::map<std::string, uint64_t> cnt;
+    uint64_t dense_chunks = g_u4dense / U4_CHUNK;
+    int be = (int)(idx & 1);
+    uint64_t k = idx >> 1;
+    if (k < dense_chunks) for (uint32_t v = (uint32_t)(k * U4_CHUNK), e = v + U4_CHUNK; v != e; v++) ucs4_value(c, v, be, cnt);
+    else {
+        size_t lo = (size_t)(k - dense_chunks) * U4_CHUNK, hi = std::min(g_u4extra.size(), lo + U4_CHUNK);
+        for (size_t i = lo; i < hi; i++) ucs4_value(c, g_u4extra[i], be, cnt);
+    }
+    for (auto& kv : cnt) c.count(kv.first, kv.second);
+    if (idx % 997 == 0) c.sample("{\"chunk\":" + std::to_string(k) + ",\"be\":" + std::to_string(be) + "}");
+}
+static void setup_ucs4(const Args& a, Runner& R) {
+    g_u4[0] = make_tc("UCS-4LE"); g_u4[1] = make_tc("UCS-4BE");
+    std::string mode = a.str("mode", "quick");
+    std::vector<int> cls;
+    if (mode == "quick") { g_u4dense = 0x200000; cls = {0x00, 0x01, 0x0F, 0x10, 0x11, 0x1F, 0x20, 0x41, 0x7F, 0x80, 0xD7, 0xD8, 0xDB, 0xDC, 0xDF, 0xE0, 0xFD, 0xFE, 0xFF, 0x04}; }
+    else { g_u4dense = 0x1000000; for (int b = 0; b < 256; b++) if (b < 0x14 || (b & 7) == 0 || (b & 7) == 7 || (b >= 0xD6 && b <= 0xE1) || b >= 0xFC || b == 0x41) cls.push_back(b); }
+    for (int a3 : cls) for (int a2 : cls) for (int a1 : cls) for (int a0 : cls) {
+        uint32_t v = (uint32_t)a3 << 24 | (uint32_t)a2 << 16 | (uint32_t)a1 << 8 | (uint32_t)a0;
+        if (v >= g_u4dense) g_u4extra.push_back(v);
+    }
+    R.total = 2 * (g_u4dense / U4_CHUNK + (g_u4extra.size() + U4_CHUNK - 1) / U4_CHUNK);
+    R.fn = run_ucs4;
+    R.describe = [](uint64_t i) { return "{\"chunk\":" + std::to_string(i >> 1) + "}"; };
+    char b[160]; snprintf(b, sizeof b, "every 32-bit value < 0x%llX plus %zu values of the %zu^4 byte-class product, x {LE,BE}", (unsigned long long)g_u4dense, g_u4extra.size(), cls.size());
+    R.extra_json = "\"bounds\":" + jstr(b);
+}
+
+// =================================================================================================
+// space sbcs: every byte of every single-byte encoding, alias names
+// =================================================================================================
+struct Alias { const char* alias; const char* canon; };
+static const Alias ALIASES[] = {
+    {"utf-8", "UTF-8"}, {"UTF8", "UTF-8"}, {"Utf-8", "UTF-8"},
+    {"us-ascii", "US-ASCII"}, {"USASCII", "US-ASCII"}, {"ASCII", "US-ASCII"}, {"US_ASCII", "US-ASCII"}, {"ascii", "US-ASCII"},
+    {"iso-8859-1", "ISO-8859-1"}, {"ISO8859-1", "ISO-8859-1"}, {"ISO_8859-1", "ISO-8859-1"}, {"IBM-819", "ISO-8859-1"}, {"IBM819", "ISO-8859-1"}, {"LATIN1", "ISO-8859-1"},
+    {"LATIN-1", "ISO-8859-1"}, {"LATIN_1", "ISO-8859-1"}, {"CP819", "ISO-8859-1"}, {"CSISOLATIN1", "ISO-8859-1"}, {"ISO-IR-100", "ISO-8859-1"}, {"L1", "ISO-8859-1"}, {"latin1", "ISO-8859-1"},
+    {"windows-1252", "WINDOWS-1252"}, {"Windows-1252", "WINDOWS-1252"},
+    {"EBCDIC-CP-US", "IBM037"}, {"ebcdic-cp-us", "IBM037"}, {"ibm037", "IBM037"},
+    {"IBM-1047", "IBM1047"}, {"ibm1047", "IBM1047"},
+    {"IBM01140", "IBM1140"}, {"CCSID01140", "IBM1140"}, {"CP01140", "IBM1140"}, {"ibm1140", "IBM1140"},
+    {"UTF-16 (LE)", "UTF-16LE"}, {"utf-16le", "UTF-16LE"}, {"UTF-16 (BE)", "UTF-16BE"}, {"utf-16be", "UTF-16BE"},
+    {"UCS-4 (LE)", "UCS-4LE"}, {"ucs-4le", "UCS-4LE"}, {"UCS-4 (BE)", "UCS-4BE"}, {"ucs-4be", "UCS-4BE"},
+    // non-endian names mean "platform order" for a free-standing transcoder (little-endian here)
+    {"UTF-16", "UTF-16LE"}, {"UCS2", "UTF-16LE"}, {"IBM1200", "UTF-16LE"}, {"IBM-1200", "UTF-16LE"}, {"UTF16", "UTF-16LE"}, {"UCS-2", "UTF-16LE"}, {"ISO-10646-UCS-2", "UTF-16LE"},
+    {"UCS4", "UCS-4LE"}, {"UCS-4", "UCS-4LE"}, {"UCS_4", "UCS-4LE"}, {"UTF-32", "UCS-4LE"}, {"ISO-10646-UCS-4", "UCS-4LE"},
+};
+static const int NALIAS = sizeof(ALIASES) / sizeof(ALIASES[0]);
+static std::vector<int> g_sb;  // indices of single-byte encodings
+static void run_sbcs(uint64_t idx, Ctx& c) {
+    if (idx >= g_sb.size()) {  // alias cases
+        const Alias& A = ALIASES[idx - g_sb.size()];
+        int rc = -1;
+        XMLTranscoder* ta = make_tc(A.alias, 2048, &rc);
+        XMLTranscoder* tc = make_tc(A.canon);
+        if (!ta || rc != (int)XMLTransService::Ok) { c.violation("alias-not-accepted", "\"alias\":" + jstr(A.alias) + ",\"code\":" + std::to_string(rc)); delete ta; delete tc; return; }
+        // same decoding of a probe that distinguishes every family (bytes 0..255 as 64 groups of 4)
+        uint8_t probe[256]; for (int i = 0; i < 256; i++) probe[i] = (uint8_t)i;
+        bool same = true;
+        for (int g = 0; g < 64 && same; g++) {
+            FromRes ra = x_from(ta, probe + 4 * g, 4, 8), rb = x_from(tc, probe + 4 * g, 4, 8);
+            if (ra.threw != rb.threw || ra.out != rb.out || ra.eaten != rb.eaten) same = false;
+        }
+        if (!same) c.violation("alias-differs", "\"alias\":" + jstr(A.alias) + ",\"canonical\":" + jstr(A.canon));
+        else c.count("alias_ok");
+        delete ta; delete tc;
+        return;
+    }
+    int ei = g_sb[idx];
+    const Enc& E = ENCS[ei];
+    XMLTranscoder* t = make_tc(E.xname);
+    uint8_t all[256]; U16 wantall; bool all_defined = true;
+    for (int b = 0; b < 256; b++) {
+        all[b] = (uint8_t)b;
+        uint8_t s1[1] = {(uint8_t)b};
+        U16 want; std::string err;
+        bool ok = g_icu[ei]->decode(s1, 1, want, &err) && want.size() == 1;
+        FromRes r = x_from(t, s1, 1, 1);
+        char hb[8]; snprintf(hb, sizeof hb, "%02X", b);
+        std::string where = "\"encoding\":" + jstr(encdesc(ei)) + ",\"byte\":" + jstr(hb);
+        if (ok) {
+            if (!strcmp(E.xname, "IBM1047") && b == 0x15 && !r.threw && r.out == U16(1, 0x000A) && want == U16(1, 0x0085)) {
+                known_or_violation(c, "ibm1047-nl-decodes-to-lf", where + ",\"expected\":\"0085\",\"observed\":\"000A\"");
+                if (!g_strict) { wantall += r.out; continue; }
+            }
+            wantall += want;
+            if (r.threw || r.out != want || r.eaten != 1 || r.sizes != std::vector<uint8_t>{1}) c.violation("sbcs-decode", where + ",\"expected\":" + jstr(hex16(want)) + ",\"observed\":" + jstr(r.threw ? r.exc : hex16(r.out)));
+            else c.count("sbcs_byte_decoded");
+            // and back
+            if (!r.threw && r.out == want) {
+                ToRes e = x_to(t, want.data(), 1, 1);
+                Bytes refb; bool rrepr = g_icu[ei]->encode_cp(want[0], refb);
+                if (rrepr && (e.threw || e.out != refb)) {
+                    if (want[0] == 0 && e.threw && E.intrinsic) known_or_violation(c, "table-nul-unrepresentable", where);
+                    else c.violation("sbcs-reencode", where + ",\"unit\":" + jstr(hex16(want)) + ",\"expected\":" + jstr(hexs(refb)) + ",\"observed\":" + jstr(e.threw ? e.exc : hexs(e.out)));
+                } else c.count("sbcs_byte_roundtrip");
+            }
+        } else {
+            all_defined = false;
+            if (!r.threw) c.violation("sbcs-undefined-byte-decoded", where + ",\"reference\":" + jstr(err) + ",\"observed\":" + jstr(hex16(r.out)));
+            else { c.count("sbcs_undefined_byte_rejected"); if (!E.intrinsic) { delete t; t = make_tc(E.xname); } }
+        }
+    }
+    if (all_defined) {  // the whole page in one call and in blocks of every maxChars 1..9
+        for (size_t mc : {(size_t)256, (size_t)1, (size_t)2, (size_t)3, (size_t)7, (size_t)9, (size_t)255}) {
+            size_t pos = 0; U16 got; bool bad = false;
+            while (pos < 256 && !bad) {
+                FromRes r = x_from(t, all + pos, 256 - pos, mc);
+                if (r.threw || r.eaten == 0 || r.eaten != r.out.size() || r.out.size() > mc) bad = true;
+                else { got += r.out; pos += r.eaten; for (uint8_t z : r.sizes) if (z != 1) bad = true; }
+            }
+            if (bad || got != wantall) c.violation("sbcs-decode-block", "\"encoding\":" + jstr(encdesc(ei)) + ",\"maxChars\":" + std::to_string(mc));
+            else c.count("sbcs_page_blocks_ok");
+        }
+    }
+    delete t;
+    c.sample("{\"encoding\":" + jstr(E.xname) + "}");
+}
+static void setup_sbcs(const Args& a, Runner& R) {
+    select_encs(a);
+    for (int ei : g_encsel) if (ENCS[ei].maxlen == 1) g_sb.push_back(ei);
+    R.total = g_sb.size() + NALIAS;
+    R.fn = run_sbcs;
+    R.describe = [](uint64_t i) { return i < g_sb.size() ? "{\"encoding\":" + jstr(ENCS[g_sb[i]].xname) + "}" : "{\"alias\":" + jstr(ALIASES[i - g_sb.size()].alias) + "}"; };
+    R.extra_json = "\"bounds\":" + jstr("256 bytes x " + std::to_string(g_sb.size()) + " single-byte encodings, " + std::to_string(NALIAS) + " alias spellings");
+}
+
+// =================================================================================================
+// space mbcs: ICU-provided multi-byte encodings, every 1- and 2-byte sequence (longer ones where the 2-byte prefix is incomplete)
+// =================================================================================================
+static std::vector<int> g_mb;
+static void mbcs_seq(Ctx& c, int ei, XMLTranscoder*& t, const uint8_t* s, size_t n, std::map<std::string, uint64_t>& cnt, RefParse* out_rp = nullptr) {
+    const Enc& E = ENCS[ei];
+    RefParse rp = ref_parse(ei, s, n);
+    if (out_rp) *out_rp = rp;
+    FromRes r = x_from(t, s, n, 8);
+    g_sizes_per_char = true;
+    bool clean = !r.threw && rp.term == RefParse::END;
+    std::string outcome, err;
+    if (!r.threw && rp.term == RefParse::INCOMPLETE && r.eaten == n && r.out == rp.units(rp.items.size())) outcome = "decoded+partial-bytes-held-in-converter-state";
+    else err = check_from(rp, r, 8, true, &outcome);
+    if (!err.empty() && !r.threw && rp.term == RefParse::ILLFORMED) {
+        U16 pred;
+        if (g_icusub[ei]->decode(s, n, pred) && (r.out == pred || (r.eaten == n && pred.compare(0, r.out.size(), r.out) == 0))) {
+            known_or_violation(c, "icu-illegal-input-substituted", "\"encoding\":" + jstr(E.xname) + ",\"input_hex\":" + jstr(hexb(s, n)) + ",\"observed\":" + jstr(hex16(r.out)));
+            delete t; t = make_tc(E.xname);
+            return;
+        }
+        err += " observed [" + hex16(r.out) + "] predicted-substitution [" + hex16(pred) + "]";
+    }
+    if (!err.empty()) c.violation("mbcs-decode", "\"encoding\":" + jstr(encdesc(ei)) + ",\"input_hex\":" + jstr(hexb(s, n)) + ",\"problem\":" + jstr(err));
+    else cnt["mbcs:" + (outcome.compare(0, 9, "rejected:") == 0 ? std::string("rejected") : outcome)]++;
+    if (!err.empty() && c.verbose) printf("mbcs %s %s: %s\n", E.xname, hexb(s, n).c_str(), err.c_str());
+    if (!clean) { delete t; t = make_tc(E.xname); }
+    if (rp.term == RefParse::END && rp.items.size() == 1 && n > 1) cnt["mbcs_multibyte_char_decoded"]++;
+}
+static void run_mbcs(uint64_t idx, Ctx& c) {
+    int ei = g_mb[idx / 256];
+    int b0 = (int)(idx % 256);
+    const Enc& E = ENCS[ei];
+    XMLTranscoder* t = make_tc(E.xname);
+    std::map<std::string, uint64_t> cnt;
+    uint8_t s[4] = {(uint8_t)b0, 0, 0, 0};
+    mbcs_seq(c, ei, t, s, 1, cnt);
+    static const int B2[] = {0x30, 0x39, 0x40, 0x7F, 0x80, 0x81, 0x82, 0xA1, 0xFD, 0xFE, 0xFF};
+    for (int b1 = 0; b1 < 256; b1++) {
+        s[1] = (uint8_t)b1;
+        RefParse rp2;
+        mbcs_seq(c, ei, t, s, 2, cnt, &rp2);
+        if (rp2.term != RefParse::INCOMPLETE || rp2.term_pos != 0) continue;
+        for (int b2 = 0; b2 < 256; b2++) {
+            s[2] = (uint8_t)b2;
+            RefParse rp3;
+            mbcs_seq(c, ei, t, s, 3, cnt, &rp3);
+            if (rp3.term != RefParse::INCOMPLETE || rp3.term_pos != 0) continue;
+            bool edge = false; for (int x : B2) if (x == b2) edge = true;
+            if (!edge) continue;
+            for (int b3 = 0; b3 < 256; b3++) { s[3] = (uint8_t)b3; mbcs_seq(c, ei, t, s, 4, cnt); }
+        }
+    }
+    delete t;
+    for (auto& kv : cnt) c.count(kv.first, kv.second);
+    if (idx % 97 == 0) c.sample("{\"encoding\":" + jstr(E.xname) + ",\"first_byte\":" + std::to_string(b0) + "}");
+}
+static void setup_mbcs(const Args& a, Runner& R) {
+    select_encs(a);
+    for (int ei : g_encsel) if (ENCS[ei].maxlen > 1 && !ENCS[ei].intrinsic) g_mb.push_back(ei);
+    R.total = g_mb.size() * 256;
+    R.fn = run_mbcs;
+    R.describe = [](uint64_t i) { return "{\"encoding\":" + jstr(ENCS[g_mb[i / 256]].xname) + ",\"first_byte\":" + std::to_string(i % 256) + "}"; };
+    R.extra_json = "\"bounds\":" + jstr("every 1- and 2-byte sequence (3rd/4th byte where the prefix is incomplete) x " + std::to_string(g_mb.size()) + " ICU multi-byte encodings");
+}
+
+// =================================================================================================
+// space split: words over a character alphabet x encodings x every split offset x every maxChars (streamed), prefixes through
+// TranscodeFromStr, whole words through TranscodeToStr and block-wise transcodeTo
+// =================================================================================================
+static const uint32_t SPLIT_ALPHA[] = {0x41, 0xE9, 0x416, 0x20AC, 0x3042, 0x4E00, 0x10000, 0x10FFFF};
+static const int NSA = sizeof(SPLIT_ALPHA) / sizeof(SPLIT_ALPHA[0]);
+static int g_splitk = 3;
+static uint64_t g_nwords = 0;
+
+static void run_split(uint64_t idx, Ctx& c) {
+    int ei = g_encsel[idx / g_nwords];
+    const Enc& E = ENCS[ei];
+    g_sizes_per_char = !E.intrinsic;
+    std::vector<int> w = word_at(idx % g_nwords, NSA, g_splitk);
+    U16 units; Bytes bytes; std::vector<uint8_t> wsz; std::vector<size_t> bound = {0};
+    std::string wdesc;
+    for (int sym : w) {
+        uint32_t cp = SPLIT_ALPHA[sym];
+        Bytes b;
+        if (!ref_encode(ei, cp, b)) { c.count("split_word_skipped_unrepresentable"); return; }
+        append_scalar(units, cp); bytes += b;
+        if (E.kind == R_UTF16LE || E.kind == R_UTF16BE) { wsz.push_back(2); if (cp >= 0x10000) wsz.push_back(2); }   // unit copy: 2 bytes per unit
+        else { wsz.push_back((uint8_t)b.size()); if (cp >= 0x10000) wsz.push_back(0); }
+        bound.push_back(bytes.size());
+        char t[16]; snprintf(t, sizeof t, "U+%04X ", cp); wdesc += t;
+    }
+    std::string where = "\"encoding\":" + jstr(encdesc(ei)) + ",\"word\":" + jstr(wdesc) + ",\"bytes\":" + jstr(hexs(bytes));
+    const uint8_t* B = (const uint8_t*)bytes.data();
+    size_t len = bytes.size();
+    g_src_pad_units = (E.intrinsic || g_strict) ? 0 : 1;
+    std::map<std::string, uint64_t> cnt;
+    // ---- 1. streamed decode: first segment bytes[0,s), then the rest; every maxChars
+    for (size_t s = 0; s <= len; s++) for (size_t m = 1; m <= units.size() + 1; m++) {
+        XMLTranscoder* t = make_tc(E.xname);
+        size_t pos = 0, seg_end = s, guard = 0; U16 got; std::vector<uint8_t> gsz; std::string err; size_t mm = m;
+        while (true) {
+            if (++guard > 200) { err = "no termination"; break; }
+            size_t avail = seg_end - pos;
+            if (avail == 0) { if (seg_end == len) break; seg_end = len; continue; }
+            FromRes r = x_from(t, B + pos, avail, mm);
+            if (r.threw) { err = "exception " + r.exc + " on well-formed input"; break; }
+            if (r.eaten > avail || r.out.size() > mm) { err = "eaten/chars out of range"; break; }
+            got += r.out; gsz.insert(gsz.end(), r.sizes.begin(), r.sizes.end());
+            if (r.eaten == 0 && r.out.empty()) {
+                if (seg_end < len) { seg_end = len; cnt["split_needed_more_bytes"]++; continue; }
+                size_t ci = 0; while (ci + 1 < bound.size() && bound[ci] < pos) ci++;
+                if (mm == 1) { mm = 2; cnt["split_pair_needs_two_slots"]++; continue; }
+                err = "stalled at byte " + std::to_string(pos); break;
+            }
+            pos += r.eaten; mm = m;
+        }
+        delete t;
+        if (err.empty() && !E.intrinsic && m == 1 && got.size() + 1 == units.size() && units.compare(0, got.size(), got) == 0 && units.back() >= 0xDC00 && units.back() <= 0xDFFF) {
+            known_or_violation(c, "icu-decode-pair-overflow-lost", where + ",\"split\":" + std::to_string(s)); continue;
+        }
+        if (err.empty() && got != units) err = "decoded [" + hex16(got) + "] expected [" + hex16(units) + "]";
+        if (err.empty() && E.intrinsic && gsz != wsz) err = "charSizes " + hexv(gsz) + " expected " + hexv(wsz);
+        if (!err.empty()) { c.violation("split-decode", where + ",\"split\":" + std::to_string(s) + ",\"maxChars\":" + std::to_string(m) + ",\"problem\":" + jstr(err)); if (c.verbose) printf("split %s\n", err.c_str()); }
+        else cnt["split_streams_ok"]++;
+        bool inside = true; for (size_t b : bound) if (b == s) inside = false;
+        if (inside && err.empty()) cnt["split_streams_cut_inside_character"]++;
+    }
+    // ---- 2. every prefix through TranscodeFromStr and through one transcodeFrom call
+    for (size_t p = 0; p <= len; p++) {
+        RefParse rp = ref_parse(ei, B, p);
+        uint8_t* buf = g_src.get(p); if (p) memcpy(buf, B, p);
+        bool threw = false; std::string exc; U16 got;
+        try { TranscodeFromStr tf(buf, p, E.xname); got.assign((const uint16_t*)tf.str(), tf.length()); }
+        catch (const XMLException& e) { threw = true; exc = exc_name(e); }
+        U16 want = rp.units(rp.items.size());
+        if (rp.term == RefParse::END) {
+            if (threw || got != want) c.violation("fromstr", where + ",\"prefix\":" + std::to_string(p) + ",\"problem\":" + jstr(threw ? "exception " + exc : "got [" + hex16(got) + "]"));
+            else cnt["fromstr_ok"]++;
+        } else {  // ends inside a character
+            if (threw) cnt["fromstr_truncated_rejected"]++;
+            else if (!E.intrinsic && got == want) known_or_violation(c, "icu-truncated-input-swallowed", where + ",\"prefix\":" + std::to_string(p));
+            else c.violation("fromstr-truncated-accepted", where + ",\"prefix\":" + std::to_string(p) + ",\"got\":" + jstr(hex16(got)));
+        }
+        if (E.intrinsic) {
+            XMLTranscoder* t = make_tc(E.xname);
+            FromRes r = x_from(t, B, p, 16);
+            std::string outcome, e = check_from(rp, r, 16, true, &outcome);
+            if (!e.empty()) c.violation("prefix-decode", where + ",\"prefix\":" + std::to_string(p) + ",\"problem\":" + jstr(e));
+            else cnt["prefix:" + outcome]++;
+            delete t;
+        }
+    }
+    // ---- 3. TranscodeToStr
+    {
+        bool threw = false; std::string exc; Bytes got;
+        XMLCh* src = (XMLCh*)g_src.get((units.size() + 1) * 2);
+        memcpy(src, units.data(), units.size() * 2); src[units.size()] = 0;
+        try { TranscodeToStr tt(src, units.size(), E.xname); got.assign((const char*)tt.str(), tt.length()); }
+        catch (const XMLException& e) { threw = true; exc = exc_name(e); }
+        if (!threw && got == bytes) cnt["tostr_ok"]++;
+        else if (!E.intrinsic && (threw || (got.size() < len && bytes.compare(0, got.size(), got) == 0))) known_or_violation(c, "icu-encode-overflow-lost", where + ",\"api\":\"TranscodeToStr\",\"observed\":" + jstr(threw ? exc : hexs(got)));
+        else if (E.kind == R_UCS4BE && !threw && got.size() == len) known_or_violation(c, "ucs4-swapped-supplementary-not-swapped", where + ",\"api\":\"TranscodeToStr\"");
+        else c.violation("tostr", where + ",\"observed\":" + jstr(threw ? exc : hexs(got)));
+    }
+    // ---- 4. block-wise transcodeTo: every source block 1..4 x every output block 1..8
+    for (size_t sb = 1; sb <= 4; sb++) for (size_t mb = 1; mb <= 8; mb++) {
+        XMLTranscoder* t = make_tc(E.xname);
+        Bytes got; bool threw; std::map<std::string, uint64_t> dummy;
+        std::string e = stream_encode(t, units, sb, mb, got, threw, dummy);
+        delete t;
+        if (!threw && e.empty() && got == bytes) { cnt["encode_streams_ok"]++; continue; }
+        if (E.kind == R_UCS4BE && !threw && e.empty() && got.size() == len) { known_or_violation(c, "ucs4-swapped-supplementary-not-swapped", where); continue; }
+        if (!E.intrinsic && (threw || (e.empty() && got.size() < len && bytes.compare(0, got.size(), got) == 0))) { known_or_violation(c, "icu-encode-overflow-lost", where + ",\"maxBytes\":" + std::to_string(mb)); continue; }
+        c.violation("split-encode", where + ",\"srcBlock\":" + std::to_string(sb) + ",\"maxBytes\":" + std::to_string(mb) + ",\"problem\":" + jstr(threw ? "exception" : e.empty() ? "got " + hexs(got) : e));
+    }
+    for (auto& kv : cnt) c.count(kv.first, kv.second);
+    if (idx % 997 == 0) c.sample("{" + where + "}");
+}
+static void setup_split(const Args& a, Runner& R) {
+    select_encs(a);
+    g_splitk = (int)a.num("k", 3);
+    g_nwords = words_upto(NSA, g_splitk);
+    R.total = g_nwords * g_encsel.size();
+    R.fn = run_split;
+    R.describe = [](uint64_t i) { return "{\"encoding\":" + jstr(ENCS[g_encsel[i / g_nwords]].xname) + ",\"word_index\":" + std::to_string(i % g_nwords) + "}"; };
+    R.extra_json = "\"alphabet\":" + std::to_string(NSA) + ",\"k\":" + std::to_string(g_splitk) + ",\"bounds\":" + jstr("words <= k over 8 characters x " + std::to_string(g_encsel.size()) + " encodings x every split offset x every maxChars");
+}
+
+// =================================================================================================
 int main(int argc, char** argv) {
     Args a(argc, argv);
     std::string space = a.str("space", "utf8dec");
@@ -501,6 +973,11 @@ int main(int argc, char** argv) {
     R.name = space;
     if (space == "utf8dec") setup_utf8dec(a, R);
     else if (space == "enc") setup_enc(a, R);
+    else if (space == "utf16") setup_utf16(a, R);
+    else if (space == "ucs4") setup_ucs4(a, R);
+    else if (space == "sbcs") setup_sbcs(a, R);
+    else if (space == "mbcs") setup_mbcs(a, R);
+    else if (space == "split") setup_split(a, R);
     else { fprintf(stderr, "unknown space %s\n", space.c_str()); return 2; }
     return R.main_tail(a);
 }
